@@ -333,8 +333,6 @@ def toError {V E} (err : E) (f : List V → List V × Bool) (args : List V) : Re
   | (outs, false) => { res := outs, err := some err, log := [(0, args)] }
 
 open Plumb in
-def errName : Name := ['e', 'r', 'r']
-open Plumb in
 def successName : Name := ['s', 'u', 'c', 'c', 'e', 's', 's']
 open Plumb in
 def outPrefix : Name := ['o', 'u', 't']
